@@ -284,6 +284,12 @@ class Container:
 
     def fillnumpy(self, data, weights=1.0):
         self._checkForCrossReferences()
+        # like fill(): a weight that is not positive (zero, negative, NaN) means the row is not filled at all
+        if isinstance(weights, numpy.ndarray):
+            if not numpy.all(weights >= 0.0):
+                weights = numpy.where(weights > 0.0, weights, 0.0)
+        elif not weights > 0.0:
+            weights = 0.0
         self._numpy(data, weights, shape=[None])
 
     def _checkNPQuantity(self, q, shape):
